@@ -179,7 +179,8 @@ def observe(model, pool, vec_hex, unit_hex, pseed=0):
 
 def resolutions(model, idmap):
     """For every advertised (path, prior): the pool index of what object_for_path finds at the path given as the
-    advertised tuple and at the same path with every component turned into a str (a path read back from text);
+    advertised tuple, at the same path with every component turned into a str (a path read back from text), and by
+    walking the model with collection[name] / getattr;
     -1: not a prior of the pool, -2: raised."""
     from autofit.mapper.prior.abstract import Prior
     out = []
@@ -191,6 +192,14 @@ def resolutions(model, idmap):
                 row.append(idmap.get(obj.id, -1) if isinstance(obj, Prior) else -1)
             except BaseException:  # noqa
                 row.append(-2)
+        # ... and walking the model itself by item access: collection[name] on collections, getattr elsewhere
+        try:
+            obj = model
+            for name in path:
+                obj = obj[str(name)] if isinstance(obj, af.Collection) else getattr(obj, str(name))
+            row.append(idmap.get(obj.id, -1) if isinstance(obj, Prior) else -1)
+        except BaseException:  # noqa
+            row.append(-2)
         out.append(row)
     return out
 
